@@ -369,7 +369,9 @@ func (w *world) apply(e event) []viol {
 		w.log.marker = e.J
 		// the engine's own handling of dragonboat's LogCompacted system event (Index = the last entry
 		// removed), through its listener and dispatcher
-		storage.VerifDeliverLogCompacted(w.cache, 1, raftio.EntryInfo{ShardID: shardID, ReplicaID: 1, Index: e.J})
+		// published while two other system events of the shard are still queued (dragonboat reports
+		// them from its own goroutines; the engine's event channel has one slot)
+		storage.VerifDeliverLogCompactedAfter(w.cache, 1, raftio.EntryInfo{ShardID: shardID, ReplicaID: 1, Index: e.J}, 2)
 	case "query":
 		got, err := w.cached.QueryRaftLog(context.Background(), shardID, dragonboat.LogRange{FirstIndex: e.First, LastIndex: w.applied + 1}, e.Max)
 		return w.checkQuery("cached-reader", e.First, e.Max, got, err)
@@ -516,7 +518,7 @@ func Run(r *evid.Run) {
 	if r.Thorough() {
 		maxN, depth, caps = 6, 10, []int{1, 2, 3, 8}
 	}
-	r.Rule(fmt.Sprintf("state = (log entries 1..n each of a type from {encoded small whose payload carries a leader index of its own, encoded large, config-change, empty application}, compaction marker, applied index, the cache's index run, cache capacity); transitions = append, apply, compact-to-j (the LogCompacted system event delivered through the engine's real listener and dispatcher), and for every first in 1..applied+1(+2) and maxSize in {1, one small entry, two small entries+1, unlimited} a query through the real Cached reader / the real LogServer.Replicate over it (these mutate the cache); in every new structural state all queries through the real Simple reader and an uncached LogServer are checked too. BFS to depth %d from the empty log and to depth-2 from non-initial states (4 small entries applied; small/large/config/empty applied; large/small/small applied), n <= %d, capacities %v, visited set on the complete tuple (cache run via hook dump). The Raft log is a model of dragonboat's LogReader (GetRange/Entries incl. size cut and at-least-one rule)", depth, maxN, caps))
+	r.Rule(fmt.Sprintf("state = (log entries 1..n each of a type from {encoded small whose payload carries a leader index of its own, encoded large, config-change, empty application}, compaction marker, applied index, the cache's index run, cache capacity); transitions = append, apply, compact-to-j (the LogCompacted system event delivered through the engine's real listener and dispatcher, published while the one-slot event channel is full), and for every first in 1..applied+1(+2) and maxSize in {1, one small entry, two small entries+1, unlimited} a query through the real Cached reader / the real LogServer.Replicate over it (these mutate the cache); in every new structural state all queries through the real Simple reader and an uncached LogServer are checked too. BFS to depth %d from the empty log and to depth-2 from non-initial states (4 small entries applied; small/large/config/empty applied; large/small/small applied), n <= %d, capacities %v, visited set on the complete tuple (cache run via hook dump). The Raft log is a model of dragonboat's LogReader (GetRange/Entries incl. size cut and at-least-one rule)", depth, maxN, caps))
 	// BFS from the empty log and from non-initial states (logs already appended and applied), sharing
 	// one visited set per capacity
 	pre := func(types ...int) []event {
